@@ -123,7 +123,8 @@ def tick_desc(tick: Any) -> dict:
             elif isinstance(r, DeleteCollectedEvent):
                 res.append(("del_collected", r.event_id))
             elif isinstance(r, AddWaiter):
-                res.append(("add_waiter", r.waiter_id, r.event_type.__name__, r.timeout))
+                res.append(("add_waiter", r.waiter_id, r.event_type.__name__, r.timeout,
+                            sorted(r.requirements.items()), r.waiter_event is not None))
             elif isinstance(r, DeleteWaiter):
                 res.append(("del_waiter", r.waiter_id))
         return {"tick": "step_result", "step": tick.step_name, "worker": tick.worker_id,
@@ -234,13 +235,14 @@ DEFAULT_CFG: dict[str, Any] = {
     "p_retry": 30, "p_fail": 25, "p_sync": 10, "p_stream": 30, "p_target": 20,
     "p_collect": 0, "p_wait": 0, "p_unhandled": 0, "p_external": 0, "p_ret_none": 30, "p_ask": 0,
     "retry_delays": [0, 0, 1, 2],
+    "p_cancel": 0, "timeouts": [None], "p_pred_raises": 0, "p_nonevent": 0, "p_baseexc": 0,
     "grid": [0, 0, 1, 1, 2, 3, 5],   # seconds; 0 = no suspension at all
     "emit_budget": 40,
     "timeout": None,
     "quiesce_gap": 500.0,
     "max_steps": 60_000,
     "max_time": 1e6,
-    "wait_timeouts": [None, None, 4, 10],
+    "wait_timeouts": [None, "default", 4, 10], "wait_types": ["Resp0"], "p_resp_step": 0, "p_wait_self": 30,
     "exc_pool": ["ValueError", "SimStepError", "KeyError"],
 }
 
@@ -288,6 +290,8 @@ def gen_spec(tape, cfg: dict[str, Any]) -> dict:
         workers = tape.rng_int(1, cfg["workers_max"], "workers")
         sync = n != "s0" and tape.chance(cfg["p_sync"], 100, "sync")
         pol = gen_policy(tape, cfg) if tape.chance(cfg["p_retry"], 100, "retry?") else None
+        if pol is not None and tape.chance(cfg["p_pred_raises"], 100, "pred-raises?"):
+            pol = dict(pol, retry=("raises",))
         scripts = {}
         asks = False
         for t in accepts[n]:
@@ -297,6 +301,17 @@ def gen_spec(tape, cfg: dict[str, Any]) -> dict:
             if tape.chance(cfg["p_fail"], 100, "fail?"):
                 sc.append(("fail", tape.choice(cfg["exc_pool"], "exc"),
                            tape.rng_int(1, 3, "fail.k")))
+            if not sync and tape.chance(cfg["p_wait"], 100, "wait?"):
+                sc.append(("wait", tape.choice(cfg["wait_types"], "wait.type"), tape.chance(60, 100, "wait.req"),
+                           tape.choice(cfg["wait_timeouts"], "wait.timeout"),
+                           "w" if tape.chance(70, 100, "wait.id") else None,
+                           tape.chance(50, 100, "wait.ask")))
+            if tape.chance(cfg["p_nonevent"], 100, "nonevent?"):
+                sc.append(("ret", "nonevent"))
+                scripts[t] = sc
+                continue
+            if tape.chance(cfg["p_baseexc"], 100, "baseexc?"):
+                sc.append(("failbase",))
             if tape.chance(cfg["p_stream"], 100, "stream?"):
                 sc.append(("stream", tape.rng_int(1, 2, "stream.n")))
             outs = list(produces[n])
@@ -324,13 +339,24 @@ def gen_spec(tape, cfg: dict[str, Any]) -> dict:
             else:
                 sc.append(("ret", ret))
             scripts[t] = sc
+        if any(a[0] == "wait" for sc in scripts.values() for a in sc) and tape.chance(cfg["p_wait_self"], 100, "wait-self?"):
+            # the waiting step also accepts the awaited type as a plain input
+            wt = next(a[1] for sc in scripts.values() for a in sc if a[0] == "wait")
+            accepts[n] = accepts[n] + [wt]
+            scripts[wt] = [("work",), ("ret", None)]
         ann = sorted(set(produces[n]) | ({"Ask0"} if asks else set()))
         steps.append({"name": n, "accepts": accepts[n], "workers": workers, "sync": sync,
                       "retry": pol, "role": "step", "scripts": scripts, "returns": ann,
                       "stop": bool(driver == "result" and stop_owner and n in stop_owner)})
+    if tape.chance(cfg["p_resp_step"], 100, "resp-step?"):
+        steps.append({"name": "rstep", "accepts": ["Resp0"], "workers": tape.rng_int(1, 2, "rstep.w"), "sync": False,
+                      "retry": None, "role": "step", "scripts": {"Resp0": [("work",), ("ret", None)]},
+                      "returns": [], "stop": False})
     if driver == "finish":
         steps.append({"name": "zfin", "accepts": ["Fin"], "workers": 1, "sync": False, "retry": None,
                       "role": "step", "scripts": {"Fin": [("ret", "stop")]}, "returns": [], "stop": True})
+    if cfg["timeouts"] != [None]:
+        cfg = dict(cfg, timeout=tape.choice(cfg["timeouts"], "wf.timeout"))
     return {"steps": steps, "types": types, "timeout": cfg["timeout"], "driver": driver,
             "disable_validation": False}
 
@@ -358,7 +384,7 @@ def build_workflow(spec: dict, world: "EngineWorld", **wf_kwargs: Any) -> Workfl
             rets.append(StopEvent)
         elif not rets and not any_stop:
             rets.append(StopEvent)
-        elif not rets and s["role"] != "catch" and spec["driver"] == "finish" and s["name"] != "zfin":
+        elif not rets and s["name"] != "zfin":
             # sink: annotate a (never taken) path to the output so upstream steps
             # are not dead ends
             rets.append(StopEvent)
@@ -423,6 +449,7 @@ class EngineWorld:
         self.tick_hooks: list = []
         self.stable_checks: list = []
         self.states: set = set()
+        self.wait_calls: list[dict] = []
         self.ended = False
         boot.reset_ids()
         self.loop.executor_delay = lambda: float(self.tape.choice(self.cfg["grid"], "exec"))
@@ -604,9 +631,9 @@ class EngineWorld:
                 self.fail_counts[key] = c + 1
                 self.fault("step-failure")
                 raise EV.EXCS[exc](f"{name}/{in_uid}/f{c}")
-        elif op == "failtype":
-            # fail only for a given input type
-            pass
+        elif op == "failbase":
+            self.fault("step-baseexception")
+            raise SimBaseExc(f"{name}/{in_uid}")
         elif op == "collect":
             _, tnames, buf = act
             got = ctx.collect_events(ev, [EV.TYPES[t] for t in tnames], buffer_id=buf)
@@ -660,6 +687,9 @@ class EngineWorld:
         kwargs: dict[str, Any] = {}
         if timeout != "default":
             kwargs["timeout"] = timeout
+        self.trace.log("wait-call", step=s["name"], uid=rec["uid"], inv=rec["inv"], wid=wid, type=tname,
+                       key=key, timeout=timeout, ask=bool(ask))
+        self.wait_calls.append({"step": s["name"], "uid": rec["uid"], "key": key, "type": tname})
         try:
             got = await ctx.wait_for_event(EV.TYPES[tname], waiter_event=waiter_event, waiter_id=wid,
                                            requirements=requirements, **kwargs)
@@ -688,6 +718,10 @@ class EngineWorld:
         self.publish_hooks.clear()
         self.tick_hooks.clear()
         gc.collect()
+
+
+class SimBaseExc(BaseException):
+    """A user-defined BaseException subclass raised by a step (engine-side failure arm)."""
 
 
 def _hashable(u: Any) -> Any:
@@ -719,6 +753,46 @@ async def external_sender(world: EngineWorld, spec: dict, handler) -> None:
             world.trace.log("ext-send-error", exc=type(ex).__name__)
 
 
+async def responder(world: EngineWorld, spec: dict, handler) -> None:
+    """Answers waits from outside: matching, non-matching, duplicate and early responses at tape-chosen instants."""
+    n = world.tape.rng_int(1, 6, "resp.n")
+    sent: list[tuple[str, str]] = []
+    for _ in range(n):
+        d = world.tape.choice(world.cfg["grid"], "resp.delay")
+        if d:
+            await asyncio.sleep(d)
+        if handler.is_done():
+            return
+        mode = world.tape.draw(10, "resp.mode")
+        calls = world.wait_calls
+        if mode <= 5 and calls:
+            c = calls[world.tape.draw(len(calls), "resp.which")]
+            tname, key = c["type"], c["key"] or "nokey"
+        elif mode <= 7 and sent:
+            tname, key = sent[world.tape.draw(len(sent), "resp.dup")]
+            world.fault("duplicate-response")
+        else:
+            tname, key = world.tape.choice(world.cfg["wait_types"], "resp.type"), "other"
+            world.fault("nonmatching-response")
+        e = world.mk(tname, -1, "ext", key=key)
+        sent.append((tname, key))
+        world.trace.log("emit", uid=e.uid, ev=tname, by="ext", via="ext", target=None, parent=-1, inv=0, key=key)
+        world.fault("external-response")
+        handler.ctx.send_event(e)
+
+
+async def canceller(world: EngineWorld, handler) -> None:
+    d = world.tape.choice(world.cfg["grid"], "cancel.at") + world.tape.choice(world.cfg["grid"], "cancel.at2")
+    if d:
+        await asyncio.sleep(d)
+    if handler.is_done():
+        return
+    world.fault("cancel-run")
+    world.trace.log("cancel-request")
+    await handler.cancel_run()
+    world.trace.log("cancel-returned", done=handler.is_done())
+
+
 async def drive_standard(world: EngineWorld, spec: dict, *, extra=None) -> dict:
     """Runs the program; returns outcome info. `extra(world, wf, handler)` may start
     additional driver tasks (external sends, responders)."""
@@ -731,6 +805,10 @@ async def drive_standard(world: EngineWorld, spec: dict, *, extra=None) -> dict:
     tasks = []
     if extra is not None:
         tasks = extra(world, wf, handler) or []
+    if world.cfg["p_wait"] and any(a[0] == "wait" for st in spec["steps"] for sc in st["scripts"].values() for a in sc):
+        tasks.append(asyncio.ensure_future(responder(world, spec, handler)))
+    if world.tape.chance(world.cfg["p_cancel"], 100, "cancel?"):
+        tasks.append(asyncio.ensure_future(canceller(world, handler)))
     if world.tape.chance(world.cfg["p_external"], 100, "ext?"):
         tasks.append(asyncio.ensure_future(external_sender(world, spec, handler)))
     outcome: dict[str, Any] = {"handler": handler, "consumer": consumer, "wf": wf}
